@@ -33,7 +33,7 @@ int hwloc__add_info(struct hwloc_infos_s *infos, const char *name, const char *v
   infos->count++;
   return 0;
 }
-void hwloc__free_infos(struct hwloc_infos_s *infos) { infos->array = NULL; infos->count = 0; infos->allocated = 0; }
+void hwloc__free_infos(struct hwloc_infos_s *infos) { (void) infos; }      /* like the real one it releases the pairs and leaves the fields alone */
 
 static const char *vp_env;
 #ifdef VP_CBMC
@@ -113,6 +113,10 @@ static unsigned long check_partition(void)
 {
   unsigned long u = 0;
   VP_CHECK(T.nr_cpukinds <= T.nr_cpukinds_allocated, "table: nr <= allocated");
+  /* the slots beyond the kinds in use are clean: the next registration builds its new kinds there and ADDS info pairs to whatever
+   * they hold (the table is zeroed when it is allocated or grown) */
+  for (unsigned i = 0; i < 2 * NK + 1; i++) if (i >= T.nr_cpukinds && i < T.nr_cpukinds_allocated && i < SLOTS)
+    VP_CHECK(T.cpukinds[i].infos.count == 0 && T.cpukinds[i].infos.array == NULL, "table: the unused slots hold no info pairs (a later registration would inherit them, and the array would be shared by two kinds)");
   for (unsigned i = 0; i < 2 * NK + 1; i++) if (i < T.nr_cpukinds) {
     unsigned long w = kset(i);
     VP_CHECK(hwloc_bitmap_weight(T.cpukinds[i].cpuset) >= 1, "kind cpusets are non-empty and finite");
